@@ -140,6 +140,58 @@ func run(dir string, env []string, timeout time.Duration, name string, args ...s
 }
 
 // raceReports splits the race detector's reports out of a test log.
+// crashInAnko looks for the first "fatal error:" / "panic:" line of a dead test process and the
+// innermost mattn/anko frame of the goroutine block that follows it.
+func crashInAnko(log string) (first, frame string, ok bool) {
+	idx := -1
+	for _, key := range []string{"\nfatal error: ", "\npanic: "} {
+		if i := strings.Index("\n"+log, key); i >= 0 && (idx < 0 || i < idx) {
+			idx = i
+		}
+	}
+	if idx < 0 {
+		return "", "", false
+	}
+	rest := ("\n" + log)[idx+1:]
+	first = rest
+	if i := strings.Index(first, "\n"); i >= 0 {
+		first = first[:i]
+	}
+	if strings.Contains(first, "out of memory") || strings.Contains(first, "cannot allocate memory") {
+		return "", "", false
+	}
+	if len(first) > 100 {
+		first = first[:100]
+	}
+	// the first goroutine block after the message
+	g := strings.Index(rest, "\ngoroutine ")
+	if g < 0 {
+		return "", "", false
+	}
+	block := rest[g+1:]
+	if j := strings.Index(block, "\n\n"); j >= 0 {
+		block = block[:j]
+	}
+	for _, l := range strings.Split(block, "\n") {
+		l = strings.TrimSpace(l)
+		if strings.HasPrefix(l, "github.com/mattn/anko/") {
+			f := strings.TrimPrefix(l, "github.com/mattn/anko/")
+			if k := strings.LastIndex(f, "("); k > 0 {
+				f = f[:k]
+			}
+			return first, f, true
+		}
+	}
+	return "", "", false
+}
+
+func head(s string, n int) string {
+	if len(s) <= n {
+		return s
+	}
+	return s[:n] + "…"
+}
+
 func raceReports(log string) []string {
 	var out []string
 	parts := strings.Split(log, "WARNING: DATA RACE")
@@ -397,7 +449,7 @@ func main() {
 			if so.timed {
 				why = "time budget exhausted"
 			}
-			incomplete = fmt.Sprintf("shard %d: %s (%v)\n%s", i, why, so.err, tail(so.log, 3000))
+			incomplete = fmt.Sprintf("shard %d: %s (%v)\n%s\n[...]\n%s", i, why, so.err, head(so.log, 3000), tail(so.log, 1500))
 			continue
 		}
 		if so.err != nil && incomplete == "" {
@@ -542,6 +594,22 @@ func main() {
 				if incomplete != "" && strings.Contains(incomplete, "exited abnormally") {
 					incomplete = ""
 				}
+			}
+		}
+	}
+
+	// a test process killed by a Go fatal error or an unrecovered panic whose faulting goroutine is
+	// inside mattn/anko: the code under test crashed its host (out-of-memory is not counted; a stack
+	// overflow is: no check lets generated programs recurse without bound inside its own process)
+	if !cfg.NoCrashRule {
+		for i, so := range outs {
+			if so.res != nil || so.timed {
+				continue
+			}
+			if first, frame, ok := crashInAnko(so.log); ok {
+				b, _ := json.Marshal(map[string]string{"report": head(so.log, 6000), "note": "the test process died; the case in flight is not known, the report is the artefact"})
+				merged.Failures = append(merged.Failures, failure{Property: id, Check: "process-crash", Sig: id + "|process-crash|" + first + "|" + frame, Msg: "the process running the generated cases was killed by a fatal error / unrecovered panic inside mattn/anko (shard " + strconv.Itoa(i) + ")\n" + head(so.log, 2500), Case: b, Flaky: true})
+				incomplete = ""
 			}
 		}
 	}
